@@ -315,17 +315,10 @@ def check(col: Collector, tier: str):
     col.floor("C02.R7", 2)
     for cname in ("set_var", "push_back"):
         e = stm.classes[cname].methods["emit"]
-        lines = [c for c in ast.walk(e.node) if isinstance(c, ast.Call) and call_name(c) == "add_line"]
-        casts = [c for c in lines if "static_cast<" in src(c)]
-        pm = parent_map(e.node)
-        ok = len(lines) == 2 and len(casts) == 1
-        if ok:
-            gs = guards(e.node, casts[0], pm)
-            ok = any(tr is False and src(t) == "not do_conversion" for t, tr in gs) or any(tr is True and src(t) == "do_conversion" for t, tr in gs)
-            dc = defs_of(e.node, "do_conversion")
-            ok = ok and len(dc) == 1 and ".type != " in src(dc[0]) and "has_cpp_type()" in src(dc[0])
+        from sa.props._tr import cast_exactly_on_type_mismatch
+        ok, why7 = cast_exactly_on_type_mismatch(e.node)
         col.add("C02.R7", f"{cname}.emit", "static_cast-when-types-differ", ok,
-                "the value must be cast to the target's type exactly when both types are known and differ", e.loc)
+                "the value must be cast to the target's type exactly when both types are known and differ: " + why7, e.loc)
 
     # ------------------------------------------------------------ R8 Fill at mainline (shared with C01)
     ds = defs_of(f.node, "scope_fill")
